@@ -16,6 +16,8 @@ package flowcontrol
 
 import (
 	"fmt"
+	"sync"
+
 	"github.com/zoumo/golib/lock/maxinflight"
 	"k8s.io/client-go/util/flowcontrol"
 
@@ -157,6 +159,11 @@ func (f *flowControl) MaxInflight() int32 {
 }
 
 type resizeableTokenBucket struct {
+	// mu makes reading the clock and taking the token one step: client-go reads
+	// the clock before the limiter's own lock, and a caller that applies a stale
+	// reading moves the limiter's time back, so the interval is credited twice.
+	// It also orders TryAcquire with the limiter swap in Resize.
+	mu          sync.Mutex
 	rateLimiter flowcontrol.RateLimiter
 	name        string
 	typ         proxyv1alpha1.FlowControlSchemaType
@@ -169,6 +176,8 @@ func (f *resizeableTokenBucket) Type() proxyv1alpha1.FlowControlSchemaType {
 }
 
 func (f *resizeableTokenBucket) TryAcquire() bool {
+	f.mu.Lock()
+	defer f.mu.Unlock()
 	return f.rateLimiter.TryAccept()
 }
 
@@ -177,6 +186,8 @@ func (f *resizeableTokenBucket) String() string {
 }
 
 func (f *resizeableTokenBucket) Resize(n uint32, burst uint32) bool {
+	f.mu.Lock()
+	defer f.mu.Unlock()
 	resized := false
 	if f.qps != n || f.burst != burst {
 		f.rateLimiter = flowcontrol.NewTokenBucketRateLimiter(float32(n), int(burst))
